@@ -34,6 +34,12 @@ NotifyOK(evs, r) ==
           /\ \A j \in 1..Len(p) : IF j % 2 = 1 THEN p[j].k = "s" /\ p[j].r = r ELSE p[j].k = "w"
     /\ \A j \in 1..Len(evs) : evs[j].k = "s" => evs[j].w \in WantsLevel
 
+HasClosed(s, d) == \E j \in DOMAIN d : d[j] \in s.closed
+\* a probe record is written through (no gating); the diagnostic after a failed attempt is an ordinary Warn record
+ProbeWritten(s, l, r) ==
+    LET d == Dest(s, l, r)
+    IN Open(s, d) \o (IF HasClosed(s, d) /\ r # Warn /\ Emits(s, l, Warn) THEN Open(s, Dest(s, l, Warn)) ELSE <<>>)
+
 ObsLoggerOK(s, l, o) ==
     /\ Has(o, "json") => o.json = s.cfg[l].json
     /\ Has(o, "color") => o.color = s.cfg[l].color
@@ -55,15 +61,16 @@ ObsLoggerOK(s, l, o) ==
     \* DumpSubloggers prints the same subtree: the bag of indentation depths agrees with Each
     /\ Has(o, "dump") => SameBag(o.dump, DumpDepths(s, l))
     \* GetWriterBy(r) is the destination list of severity r; GetWriter() the one of the logger's own level
-    /\ Has(o, "getw") => \A x \in 1..Len(o.getw) : SameBag(Written(o.getw[x].evs), Dest(s, l, o.getw[x].r))
-    /\ Has(o, "getw0") => SameBag(Written(o.getw0), Dest(s, l, s.cfg[l].level))
+    /\ Has(o, "getw") => \A x \in 1..Len(o.getw) : SameBag(Written(o.getw[x].evs), Open(s, Dest(s, l, o.getw[x].r)))
+    /\ Has(o, "getw0") => SameBag(Written(o.getw0), Open(s, Dest(s, l, s.cfg[l].level)))
     /\ Has(o, "sub") => \A x \in 1..Len(o.sub) :
             LET c == SubCands(s, l, o.sub[x].name)
             IN IF c = {} THEN o.sub[x].got = 0 ELSE o.sub[x].got \in c
     \* every selected destination receives the record once per occurrence in the list, nothing else
     \* receives anything (the order of Write calls across destinations is not part of the property)
-    /\ Has(o, "dest") => \A x \in 1..Len(o.dest) : /\ SameBag(Written(o.dest[x].evs), Dest(s, l, o.dest[x].r))
-                                                         /\ NotifyOK(o.dest[x].evs, o.dest[x].r)
+    \* (a closed file among them fails its attempt: the one diagnostic record follows, as for any failure)
+    /\ Has(o, "dest") => \A x \in 1..Len(o.dest) : /\ SameBag(Written(o.dest[x].evs), ProbeWritten(s, l, o.dest[x].r))
+                                                         /\ (HasClosed(s, Dest(s, l, o.dest[x].r)) \/ NotifyOK(o.dest[x].evs, o.dest[x].r))
     \* C01: per severity, every entry point decides as the admission rule says
     /\ Has(o, "gate") => \A x \in 1..Len(o.gate) :
             IF Emits(s, l, o.gate[x].r) THEN o.gate[x].no = <<>> ELSE o.gate[x].yes = <<>>
@@ -73,12 +80,14 @@ ObsMatch(s, e, s2) ==
     /\ Has(e, "ret") => e.ret = Ret(s, e, s2)
     /\ Has(e, "dbg") => e.dbg = s2.dbg
     /\ (e.op = "Register" /\ Has(e, "ok")) => e.ok = RegOK(s, e)
+    \* Close() of a destination list: every LogWriter among the members is closed once per occurrence
+    /\ (e.op = "CloseW" /\ Has(e, "closed")) => SameBag(e.closed, Closers(Dest(s, e.l, e.a)))
     /\ Has(e, "deflvl") => e.deflvl = s2.deflvl
     /\ Has(e, "n") => e.n = s2.n
     \* C13: the attempts observed during the call, as a bag of [w, ph, fail]
-    /\ (e.op = "LogF" /\ Has(e, "evs")) => SameBag(e.evs, Deliver(s2, e.l, e.a, FailSets[e.b]))
+    /\ (e.op = "LogF" /\ Has(e, "evs")) => SameBag(e.evs, Visible(s2, Deliver(s2, e.l, e.a, FailSets[e.b])))
     \* C02: one whole Write per destination iff admitted, whatever the arguments
-    /\ (e.op = "LogA" /\ Has(e, "evs")) => SameBag(e.evs, ExpectA(s2, e))
+    /\ (e.op = "LogA" /\ Has(e, "evs")) => SameBag(e.evs, Visible(s2, ExpectA(s2, e)))
     \* C07: the attributes printed for the record, flattened in printed order
     /\ (e.op = "LogM" /\ Has(e, "leaves")) => e.leaves = ExpectM(s2, e)
     /\ Has(e, "attrsR") => e.attrsR = s2.attrsR
